@@ -163,6 +163,7 @@ pub fn all() -> Vec<Witness> {
                     is_function: false,
                     params: vec!["P1%".into()],
                     body,
+                    is_static: false,
                 }],
                 b"",
                 vec![],
@@ -461,6 +462,7 @@ pub fn all() -> Vec<Witness> {
                     is_function: true,
                     params: vec!["P1%".into()],
                     body,
+                    is_static: false,
                 }],
                 b"",
                 vec![],
@@ -539,12 +541,14 @@ pub fn all() -> Vec<Witness> {
                 is_function: true,
                 params: vec!["P1%".into()],
                 body: f2,
+                is_static: false,
             },
             Proc {
                 name: "F1%".into(),
                 is_function: true,
                 params: vec!["P1%".into()],
                 body: f1,
+                is_static: false,
             },
         ];
         out.push(Witness {
@@ -621,12 +625,14 @@ pub fn all() -> Vec<Witness> {
                 is_function: true,
                 params: vec!["P1%".into()],
                 body: f2,
+                is_static: false,
             },
             Proc {
                 name: "F1%".into(),
                 is_function: true,
                 params: vec!["P1%".into()],
                 body: f1,
+                is_static: false,
             },
         ];
         out.push(Witness {
@@ -670,6 +676,7 @@ pub fn all() -> Vec<Witness> {
             is_function: true,
             params: vec!["P1%".into()],
             body: f2,
+            is_static: false,
         }];
         out.push(Witness {
             name: "fixed-resume-next-mode-leaves-argument-states",
@@ -677,6 +684,58 @@ pub fn all() -> Vec<Witness> {
             class: "Internal",
             key: "",
             what: "ON ERROR RESUME NEXT: an error while the arguments of a call were evaluated inside a FUNCTION left the argument states on the context stack; the return panicked with 'Expected normal state'",
+            case: case_of(main, procs, b"", vec![]),
+        });
+    }
+    // ---- STATIC subprogram first called from inside another subprogram ----
+    {
+        let mut b = B(0);
+        let cnt = vec![b.trace("cnt")];
+        let outer = vec![
+            b.s(StmtKind::CallSub {
+                name: "S1".into(),
+                args: vec![int(1)],
+            }),
+            b.trace("outer"),
+        ];
+        let main = vec![
+            b.s(StmtKind::CallSub {
+                name: "S2".into(),
+                args: vec![int(1)],
+            }),
+            b.s(StmtKind::CallSub {
+                name: "S2".into(),
+                args: vec![int(2)],
+            }),
+            b.s(StmtKind::CallSub {
+                name: "S1".into(),
+                args: vec![int(3)],
+            }),
+            b.trace("end"),
+            b.s(StmtKind::End),
+        ];
+        let procs = vec![
+            Proc {
+                name: "S1".into(),
+                is_function: false,
+                params: vec!["P1%".into()],
+                body: cnt,
+                is_static: true,
+            },
+            Proc {
+                name: "S2".into(),
+                is_function: false,
+                params: vec!["P1%".into()],
+                body: outer,
+                is_static: false,
+            },
+        ];
+        out.push(Witness {
+            name: "fixed-static-sub-called-from-subprogram",
+            property: "C08",
+            class: "Internal",
+            key: "",
+            what: "a STATIC SUB first called from inside another SUB and later from the main module: 'index out of bounds' in Context (the static memory block had moved)",
             case: case_of(main, procs, b"", vec![]),
         });
     }
